@@ -559,42 +559,81 @@ func c15Shape(c *c15Case) string {
 	return s
 }
 
-// c15StaticTag: what is special about the static types the paths of the case are resolved
-// against: a path that goes through a pointer to a map.
-func c15StaticTag(c *c15Case) string {
-	through := func(rt reflect.Type, path []string) bool {
-		for _, seg := range path {
-			if rt.Kind() == reflect.Map {
-				rt = rt.Elem()
-				continue
-			}
-			if rt.Kind() == reflect.Ptr {
-				for rt.Kind() == reflect.Ptr {
-					rt = rt.Elem()
-				}
-				if rt.Kind() == reflect.Map {
-					return true
-				}
-			}
-			if rt.Kind() != reflect.Struct {
-				return false
-			}
-			f, ok := rt.FieldByName(seg)
-			if !ok {
-				return false
-			}
-			rt = f.Type
+// c15Through: what a path meets on its way through the static type rt: "ptrmap" (a pointer to a
+// map), "nested" (a pointer to a pointer in front of a struct), "iface" (a segment applied to an
+// interface other than `any`), "" otherwise
+func c15Through(rt reflect.Type, path []string) string {
+	for _, seg := range path {
+		if rt.Kind() == reflect.Map {
+			rt = rt.Elem()
+			continue
 		}
-		return false
+		if rt.Kind() == reflect.Ptr {
+			levels := 0
+			for rt.Kind() == reflect.Ptr {
+				rt = rt.Elem()
+				levels++
+			}
+			if rt.Kind() == reflect.Map {
+				return "ptrmap"
+			}
+			if levels > 1 && rt.Kind() == reflect.Struct {
+				return "nested"
+			}
+		}
+		if rt.Kind() == reflect.Interface && rt != c15AnyType {
+			return "iface"
+		}
+		if rt.Kind() != reflect.Struct {
+			return ""
+		}
+		f, ok := rt.FieldByName(seg)
+		if !ok {
+			return ""
+		}
+		rt = f.Type
 	}
+	return ""
+}
+
+// c15StaticTag: what is special about the static types the paths of the case are resolved
+// against: a path that goes through a pointer to a map, through a pointer to a pointer, or has a
+// segment below a non-empty interface (the first that applies, targets before sources).
+func c15StaticTag(c *c15Case) string {
+	through := c15Through
 	tt := c15Types[c.TargetName]
+	hit := map[string]bool{}
 	for _, d := range c.Decls {
 		st := c15Types[d.TyName]
 		for _, m := range d.Maps {
-			if (tt != nil && through(tt.rt, m.To)) || (st != nil && through(st.rt, m.From)) {
-				return ":through-pointer-to-map"
+			if tt != nil {
+				hit["target:"+through(tt.rt, m.To)] = true
+			}
+			if st != nil {
+				hit["source:"+through(st.rt, m.From)] = true
 			}
 		}
+	}
+	switch {
+	case hit["target:ptrmap"] || hit["source:ptrmap"]:
+		return ":through-pointer-to-map"
+	case hit["target:nested"]:
+		return ":target-through-nested-pointer"
+	case hit["source:nested"]:
+		return ":source-through-nested-pointer"
+	case hit["target:iface"]:
+		return ":target-below-non-empty-interface"
+	case hit["source:iface"]:
+		return ":source-below-non-empty-interface"
+	}
+	return ""
+}
+
+// c15DeepTag: the static tag when it is one of the tags of the family "deep" (appended to run
+// signatures; the older tags never were)
+func c15DeepTag(c *c15Case) string {
+	if t := c15StaticTag(c); t != ":through-pointer-to-map" {
+		return t
 	}
 	return ""
 }
@@ -694,6 +733,7 @@ func c15Compare(c *c15Case, model *c15Model, impl *c15Impl) []c15Finding {
 	if model.Promoted {
 		shape += ":promoted"
 	}
+	shape += c15DeepTag(c)
 	// determinism
 	if len(impl.Invoke) > 1 {
 		fs = append(fs, c15Finding{"C15:invoke:nondeterministic", fmt.Sprintf("%d different Invoke outcomes in %d runs of one compiled workflow", len(impl.Invoke), impl.InvokeRuns)})
@@ -933,21 +973,26 @@ func c15Pick(r *vh.Rand, names []string, weights []int) string {
 var (
 	c15TargetNames = []string{"Top", "PTop", "Mid", "PMid", "MapAny", "MapStr", "MapLeaf", "MapPMid", "MapMid", "Any", "Leaf", "Str",
 		"EmbV", "PEmbV", "EmbP", "PEmbP", "Emb2", "PEmb2P", "Wrap", "PM", "PPM", "MapPMap", "MapEmbV",
-		"Opq", "POpq", "MapSS", "MapFunc", "MapChan"}
+		"Opq", "POpq", "MapSS", "MapFunc", "MapChan",
+		"Deep", "PDeep", "MapNamer", "PPLeaf", "NV", "PNP"}
 	c15TargetWeights = []int{32, 10, 10, 5, 10, 5, 5, 5, 6, 6, 4, 2,
 		6, 3, 4, 2, 5, 3, 10, 4, 2, 2, 3,
-		8, 2, 2, 2, 2}
+		8, 2, 2, 2, 2,
+		9, 3, 2, 1, 1, 2}
 	c15SourceNames = []string{"Top", "PTop", "Mid", "PMid", "Leaf", "PLeaf", "MapAny", "MapStr", "MapLeaf", "MapPMid",
 		"EmbV", "PEmbV", "EmbP", "PEmbP", "Emb2", "PEmb2P", "Wrap", "PM", "PPM", "MapPMap", "MapEmbV",
-		"Opq", "POpq", "MapSS", "MapFunc", "MapChan"}
+		"Opq", "POpq", "MapSS", "MapFunc", "MapChan",
+		"Deep", "PDeep", "MapNamer", "PPLeaf", "NV", "PNP"}
 	c15SourceWeights = []int{38, 10, 15, 6, 5, 3, 10, 5, 4, 4,
 		7, 3, 5, 2, 6, 4, 12, 4, 2, 2, 3,
-		8, 2, 1, 1, 1}
+		8, 2, 1, 1, 1,
+		10, 3, 2, 1, 1, 2}
 	c15StartNames = []string{"Top", "Top", "MapAny", "Wrap", "PEmbP"}
 	c15DynTypes   = []reflect.Type{reflect.TypeOf(""), reflect.TypeOf(0), reflect.TypeOf(C15Leaf{}), reflect.TypeOf(&C15Leaf{}),
 		reflect.TypeOf(map[string]any{}), reflect.TypeOf(map[string]string{}), reflect.TypeOf(C15Mid{}), reflect.TypeOf(&C15Mid{}),
 		reflect.TypeOf(C15EmbV{}), reflect.TypeOf(&C15EmbP{}), reflect.TypeOf(&C15Emb2{}), reflect.TypeOf(&map[string]string{}),
-		reflect.TypeOf([]string{}), reflect.TypeOf((func() string)(nil)), reflect.TypeOf((chan int)(nil))}
+		reflect.TypeOf([]string{}), reflect.TypeOf((func() string)(nil)), reflect.TypeOf((chan int)(nil)),
+		reflect.TypeOf(C15NV{}), reflect.TypeOf(&C15NV{}), reflect.TypeOf(&C15NP{}), reflect.TypeOf(C15NP{})}
 )
 
 func c15GenVal(r *vh.Rand, rt reflect.Type, depth int) reflect.Value {
@@ -963,6 +1008,11 @@ func c15GenVal(r *vh.Rand, rt reflect.Type, depth int) reflect.Value {
 		}
 	case reflect.Interface:
 		if r.Chance(20) || depth <= 0 {
+			return v
+		}
+		if rt != c15AnyType {
+			// a non-empty interface: one of its implementing types
+			v.Set(c15GenVal(r, c15NamerImpls[r.Intn(len(c15NamerImpls))], depth-1))
 			return v
 		}
 		dt := c15DynTypes[r.Intn(len(c15DynTypes))]
